@@ -889,6 +889,16 @@ class Manager:
 
             self.fire(exception(*err, handler=None, fevent=event))
 
+            # The failed handler (and the call/wait it was resumed from, if
+            # any) is finished: account for it like the StopIteration branch
+            # does, or the event is never done (no done/complete event, a
+            # caller waiting for it is never resumed).
+            event.failed = True
+            event.waitingHandlers -= 2 if parent is not None else 1
+            if event.waitingHandlers <= 0:
+                event.waitingHandlers = 0
+                self._eventDone(event, err)
+
     def tick(self, timeout=-1):
         """
         Execute all possible actions once. Process all registered tasks
